@@ -5,8 +5,9 @@
 //!   t <mod> <task> <expr>     append <expr> to the program of task <task> of module m<mod>
 //!   fin                       end of simulation: final time, unfinished joins per module
 //!
-//! All tasks of a module are spawned (`tokio::spawn` + `current().join`) in `at_sim_start`, i.e. at
-//! time 0 and again after every restart of the module. A task runs its lines in order.
+//! All tasks of a module are spawned (`tokio::spawn`, or `tokio::task::spawn_local` when the task tag
+//! starts with a lower-case letter, + `current().join`) in `at_sim_start`, i.e. at time 0 and again
+//! after every restart of the module. A task runs its lines in order.
 //! `<expr>` is a prefix term (fixed arities, all numbers decimal nanoseconds):
 //!
 //!   nop                         nothing
@@ -309,7 +310,7 @@ fn run(e: E, c: Ctx) -> BoxFut {
 type Log = Arc<Mutex<BTreeMap<usize, Vec<String>>>>;
 
 struct M {
-    tasks: Vec<Vec<(usize, E)>>,
+    tasks: Vec<(bool, Vec<(usize, E)>)>, // (spawn_local?, program)
     log: Log,
     starts: Arc<AtomicUsize>,
 }
@@ -318,10 +319,10 @@ impl Module for M {
     fn reset(&mut self) {}
     fn at_sim_start(&mut self, _stage: usize) {
         let inc = self.starts.fetch_add(1, Ordering::SeqCst);
-        for prog in &self.tasks {
+        for (local, prog) in &self.tasks {
             let prog = prog.clone();
             let log = self.log.clone();
-            current().join(tokio::spawn(async move {
+            let fut = async move {
                 let env = Arc::new(Mutex::new(HashMap::new()));
                 for (line, e) in prog {
                     let c = Ctx {
@@ -335,7 +336,13 @@ impl Module for M {
                 // named timers die with the task
                 let old: Vec<Named> = env.lock().unwrap().drain().map(|(_, v)| v).collect();
                 drop(old);
-            }));
+            };
+            // a task whose tag starts with a lower-case letter runs on the module's LocalSet
+            if *local {
+                current().join(tokio::task::spawn_local(fut));
+            } else {
+                current().join(tokio::spawn(fut));
+            }
         }
     }
 }
@@ -377,7 +384,10 @@ fn exec_case(header: &str, body: &[String], out: &mut String) {
             sim.node(
                 format!("m{m}"),
                 M {
-                    tasks: tasks.iter().map(|(_, v)| v.clone()).collect(),
+                    tasks: tasks
+                        .iter()
+                        .map(|(t, v)| (t.chars().next().is_some_and(|c| c.is_ascii_lowercase()), v.clone()))
+                        .collect(),
                     log: log.clone(),
                     starts: Arc::new(AtomicUsize::new(0)),
                 },
@@ -638,7 +648,7 @@ pub fn gen(seed: u64, count: usize, thorough: bool) -> String {
             let ntasks = if thorough { g.r.range(1, 6) } else { *g.r.pick(&[1u64, 1, 2, 2, 3, 4, 6]) };
             let restart_task = g.r.below(ntasks);
             for t in 0..ntasks {
-                let tag = format!("{}", (b'A' + t as u8) as char);
+                let tag = format!("{}", ((if g.r.chance(1, 3) { b'a' } else { b'A' }) + t as u8) as char);
                 let mut prog = Vec::new();
                 let n = if thorough { g.r.range(1, 5) } else { g.r.range(1, 3) };
                 for _ in 0..n {
